@@ -61,15 +61,16 @@ func functionalScenarios(tier string) []engine.Scenario {
 	for _, b := range bases(tier) {
 		b := b
 		// deviation bound. quick: 1 everywhere, 2 for the fully packed and the single-slot base at LogN 8.
-		// thorough: 2 at LogN 8 and 9 (3 for the fully packed LogN 8 base), at LogN 10 1 and 2 for the fully packed base.
+		// thorough: 2 for every base at LogN 8 and for the fully packed and the single-slot base at LogN 9, 1 elsewhere
+		// (LogN 10 included).
 		full := b.logSlots == b.logN-1
 		bound := 1
 		switch {
-		case tier == "quick" && b.logN == 8 && (full || b.ctGap != 0):
+		case b.logN == 8 && (full || b.ctGap != 0):
 			bound = 2
-		case tier == "thorough" && b.logN == 8 && full:
-			bound = 3
-		case tier == "thorough" && (b.logN < 10 || full):
+		case tier == "thorough" && b.logN == 8:
+			bound = 2
+		case tier == "thorough" && b.logN == 9 && (full || b.ctGap != 0):
 			bound = 2
 		}
 		mk := func(first, alt int) engine.Scenario {
@@ -159,7 +160,7 @@ func main() {
 		Level: "exploration",
 		Rule: "One leaf = one parameter set instantiated through the public constructors with freshly generated keys. " +
 			"Item 1: every exported default literal at LogN 8..10 and every reduced configuration: levels of every polynomial of every generated key, Galois set == advertised set, key requests recorded during a real bootstrap. " +
-			"Item 2: configurations with at most 1 (quick) / 2 (thorough) deviations from the ordinary one over 13 option axes x (LogN, LogSlots) bases; one batch of ciphertexts with pairwise distinct slot values each. " +
+			"Item 2: configurations within a deviation bound of the ordinary one over 13 option axes x (LogN, LogSlots) bases (quick: <=1 deviation on every base of LogN 8,9 and <=2 on the fully packed and the single-slot base of LogN 8; thorough: <=2 on every base of LogN 8 and on those two bases of LogN 9, <=1 elsewhere incl. LogN 10), plus the full product ring relation x sparsity x batch size on a ShallowCopy; one batch of ciphertexts with pairwise distinct slot values each. " +
 			"Item 3: CoeffsToSlots∘SlotsToCoeffs for every depth split x slot count, mod1 evaluator on a grid of its interval for every literal option. " +
 			"distinct_nontrivial counts distinct (configuration, observed precision/levels) classes.",
 		Assumptions: []string{
